@@ -115,6 +115,8 @@ pub mod h_recv;
 pub mod h_many;
 #[cfg(any(all(kani, feature = "k_rec"), all(not(kani), feature = "k_native")))]
 pub mod h_send;
+#[cfg(any(all(kani, feature = "k_rec"), all(not(kani), feature = "k_native")))]
+pub mod h_ser;
 #[cfg(any(all(kani, feature = "k_rec", feature = "bigfd"), all(not(kani), feature = "k_native")))]
 pub mod h_sendmany;
 
@@ -128,6 +130,7 @@ pub fn lookup(name: &str) -> Option<fn()> {
         .or_else(|| h_recv::lookup(name))
         .or_else(|| h_many::lookup(name))
         .or_else(|| h_sendmany::lookup(name))
+        .or_else(|| h_ser::lookup(name))
 }
 
 /// compiled once per feature set to warm the dependency cache (vlib/kanirun.py: seed_target)
